@@ -741,8 +741,8 @@ func runFiles(r *vp.Run) {
 			n++
 		}
 	}
-	// fan-in: the same child under every link (the content itself is k^depth leaves long, so the
-	// shapes are kept small enough for that to stay within the yardstick)
+	// fan-in: the same child under every link. The content itself is k^depth leaves long (108
+	// bytes out of a 4-byte leaf): producing it is legitimate work, so it counts as w.output.
 	for _, sizes := range []string{"recorded", "absent"} {
 		w := newWorld()
 		k := w.leafPB([]byte("leaf"))
@@ -753,6 +753,7 @@ func runFiles(r *vp.Run) {
 				}
 			})
 		}
+		w.output = int(k.size)
 		runCase(r, "file:shared-child,k=3,depth=3,sizes="+sizes, w, k.c, nil, false)
 		n++
 	}
